@@ -272,6 +272,12 @@ void explore(View const& v, int id, vt::Rng& rng) {
             }
             { auto cv = gil::kth_channel_view<1>(v); log_view<K>(cv, id, "kthch", {1}, 1, true); }
         }
+        // the only channel of a single-channel view (also of stepped / flipped / transposed ones reached at depth > 0)
+        if constexpr (CHADDR && NCH == 1) {
+            g_depth = D + 1;
+            { auto cv = gil::nth_channel_view(v, 0); log_view<K>(cv, id, "nthch", {0}, 1, true); }
+            { auto cv = gil::kth_channel_view<0>(v); log_view<K>(cv, id, "kthch", {0}, 1, true); }
+        }
     }
 }
 
